@@ -337,6 +337,39 @@ theorem returns_r_unit (d : Dim) (ds : List Dim) :
   | nil => exact absurd rfl h
   | cons x xs => simp [returnsDims]
 
+/-- **`accepts_history_independent`**: whatever calls were made before on the same decorated
+    function — good ones, refused ones, with whatever units — the outcome of a call is the outcome
+    of that call on a fresh function.  In the model this is immediate (the model of `accepts` is a
+    pure function of the current arguments, as the source's closure keeps no mutable state); that
+    the *code* has no memory either is what the correspondence over call sequences checks
+    (`c19.accepts_seq`: every call of a generated history is compared with this model). -/
+theorem accepts_history_independent (argUnits : List (String × Dim)) (varnames : List String)
+    (f : Call → Except Err β) (before : List Call) (c : Call) (after : List Call) :
+    (acceptsHistory argUnits varnames f (before ++ c :: after))[before.length]?
+      = some (accepts argUnits varnames f c) := by
+  induction before with
+  | nil => simp [acceptsHistory]
+  | cons b bs ih => simpa [acceptsHistory] using ih
+
+/-- hence, at every point of every history, the wrapped function is entered exactly when the
+    *current* call's checked arguments have the stated dimensions -/
+theorem accepts_history_verdict (argUnits : List (String × Dim)) (varnames : List String)
+    (f : Call → Except Err β) (before : List Call) (c : Call) (after : List Call) :
+    ((acceptsHistory argUnits varnames f (before ++ c :: after))[before.length]?.map (·.called)
+        = some true) ↔
+      ∀ nv ∈ supplied varnames c, ∀ d, argUnits.lookup nv.1 = some d →
+        hasDimensions nv.2.dim d = true := by
+  rw [accepts_history_independent, Option.map_some, Option.some.injEq]
+  exact accepts_iff_dimension argUnits varnames f c
+
+/-- the same for `returns` -/
+theorem returns_history_independent (dims : List Dim) (f : Call → Except Err PyResult)
+    (before : List Call) (c : Call) (after : List Call) :
+    (returnsHistory dims f (before ++ c :: after))[before.length]? = some (returns dims f c) := by
+  induction before with
+  | nil => simp [returnsHistory]
+  | cons b bs ih => simpa [returnsHistory] using ih
+
 /-- **the full statement for `accepts`**: the call goes through exactly when every checked
     parameter's *bound* value — supplied or default — has the stated dimension -/
 def C19_accepts_full : Prop :=
